@@ -43,6 +43,7 @@ type Obligation struct {
 	Paths    map[string]int            `json:"paths"`
 	TimeS    map[string]int            `json:"time_s"`
 	Subst    map[string]string         `json:"subst"`
+	LoopBounds map[string]int          `json:"loop_bounds"`
 	Tiers    []string                  `json:"tiers"`
 	What     string                    `json:"what"`
 }
@@ -279,6 +280,8 @@ func runObligation(cfg *Config, l *loaded, o Obligation, conc *interp.Concrete, 
 		}
 	}
 	eng.Deadline = time.Now().Add(time.Duration(ts) * time.Second)
+	eng.LoopBounds = o.LoopBounds
+	eng.UnwindIgnore = o.Unwind == "ignore"
 	eng.UnwindIsViolation = o.Unwind == "violation"
 	eng.DeadlockIsViolation = o.Deadlock == "violation"
 	eng.PanicOK = o.PanicOK
@@ -287,9 +290,9 @@ func runObligation(cfg *Config, l *loaded, o Obligation, conc *interp.Concrete, 
 		eng.KeepQueries = 200
 	}
 	eng.QuerySampleSeed = uint64(cfg.Seed)
-	qto := 20000
+	qto := 6000
 	if cfg.Tier == "thorough" {
-		qto = 120000
+		qto = 30000
 	}
 	eng.NewSolver = func() (*solver.Solver, error) { return solver.New("z3", []string{"-in"}, qto) }
 	if len(o.Subst) > 0 {
@@ -314,7 +317,7 @@ func runObligation(cfg *Config, l *loaded, o Obligation, conc *interp.Concrete, 
 			}
 		}
 		for _, k := range []string{"unsupported", "inconclusive", "engine-bug", "unwind", "deadlock"} {
-			if k == "unwind" && eng.UnwindIsViolation || k == "deadlock" && eng.DeadlockIsViolation {
+			if k == "unwind" && (eng.UnwindIsViolation || eng.UnwindIgnore) || k == "deadlock" && eng.DeadlockIsViolation {
 				continue
 			}
 			if n := eng.Outcomes[k]; n > 0 {
@@ -889,7 +892,7 @@ func crossCheck(cfg *Config, results []*oblResult, ev *evidence) {
 		ev.crossChecked++
 		for _, other := range r[1:] {
 			switch {
-			case other == "unknown":
+			case other == "unknown" || r[0] == "unknown":
 				ev.crossUnknown++
 			case other != r[0]:
 				ev.crossDisagree++
@@ -1072,8 +1075,12 @@ func (ev *evidence) write(cfg *Config, spec *Spec, results []*oblResult, wall fl
 		},
 	}
 	j, _ := json.MarshalIndent(doc, "", " ")
-	os.MkdirAll(filepath.Join(cfg.Verif, "evidence"), 0o755)
-	os.WriteFile(filepath.Join(cfg.Verif, "evidence", ev.id+".json"), j, 0o644)
+	evdir := filepath.Join(cfg.Verif, "evidence")
+	if d := os.Getenv("VERIF_EVIDENCE_DIR"); d != "" {
+		evdir = d // development runs against scratch trees must not overwrite the evidence of /repo
+	}
+	os.MkdirAll(evdir, 0o755)
+	os.WriteFile(filepath.Join(evdir, ev.id+".json"), j, 0o644)
 }
 
 func round1(f float64) float64 { return float64(int(f*10+0.5)) / 10 }
